@@ -93,9 +93,9 @@ def builder_verdict(ctx, builder, wrapped_param: Optional[str] = None) -> Tuple[
             passes = all((isinstance(x, ast.Name) and x.id in own) or (isinstance(x, ast.Starred) and isinstance(x.value, ast.Name) and x.value.id in own)
                          for x in c.term.args) and all(
                 (isinstance(k.value, ast.Name) and k.value.id in own) for k in c.term.keywords)
-            same = v is not None and show(v) in (f"$c{c.idx}", f"$w{c.idx}")
-            if not same and v is not None and isinstance(p.value, ast.Name) and p.value.id.startswith("$w"):
-                same = True  # awaited result of the call
+            same = isinstance(p.value, ast.Name) and p.value.id in (f"$c{c.idx}", f"$w{c.idx}")
+            if not same and v is not None:
+                same = show(v) == show(expand(ast.Name(id=f"$c{c.idx}", ctx=ast.Load()), p.events))
             verdicts.append(("transparent", "calls it once and returns its value") if (passes and same) else
                             ("unknown", f"{m.fn.qualname} changes the arguments or the result of `{wrapped_param}`"))
     kinds = {k for k, _ in verdicts}
